@@ -561,3 +561,56 @@ func genBatchSeq(r *rng, thorough bool, emit func(FlowScenario)) {
 		}
 	}
 }
+
+// family "rflow" (C02 for a flow): a flow whose embedded BaseNode was given a retry budget. The root flow R starts with a
+// fresh leaf S (prep / exec / post always succeed, action "go") that no connection leads to, and goes on with a randomly
+// generated flow as a nested node: every attempt of R's Exec shows as one prep of S.
+func genRetriedFlows(r *rng, thorough bool, emit func(FlowScenario)) {
+	n := 400
+	if thorough {
+		n = 4000
+	}
+	for i := 0; i < n; i++ {
+		p := flowParams{leaves: 1 + r.intn(4), batches: 0, depth: 1 + r.intn(2), actions: []string{"a", "b"}, maxVisits: 3 + r.intn(4),
+			pFail: 30 + r.intn(40), pPhaseFail: 8, funcStyle: true, runs: 1}
+		sc := randFlow(r, p)
+		if len(sc.Steps) != 1 || sc.Steps[0].Run == nil {
+			continue
+		}
+		inner := *sc.Steps[0].Run
+		maxID := 0
+		for _, nd := range sc.Nodes {
+			if nd.ID > maxID {
+				maxID = nd.ID
+			}
+		}
+		sID, rID := maxID+1, maxID+2
+		budget := r.intn(5)
+		if i%7 == 0 {
+			budget = 1
+		}
+		leaf := LeafCfg{Retryable: true, Budget: 1, Fb: "pass", PrepS: "direct", ExecS: "direct", PostS: "direct"}
+		sc.Nodes = append(sc.Nodes, NodeDef{ID: sID, Leaf: &leaf},
+			NodeDef{ID: rID, Flow: &FlowDef{Start: ip(sID), Ops: []Conn{{Src: sID, Action: "go", Dst: ip(inner)}}}})
+		t := &tokGen{r: r, next: 40 + r.intn(20), errN: 40}
+		for v := 0; v <= budget+1; v++ {
+			ls := t.leafScript(sID, v, true, 1, 1, true, "=go")
+			sc.LeafScripts = append(sc.LeafScripts, ls)
+		}
+		sc.Steps = []Step{{Run: ip(rID)}}
+		if i%3 == 1 {
+			sc.Steps[0].Via = "flow" // through the convenience method flow.Run(ctx, store): the same budget applies
+		}
+		sc.RBudget = ip(budget)
+		if i%9 == 0 { // a callback somewhere cancels the context: the retry loop must stop with the context's error
+			base := execFlowScenario(&sc)
+			if len(base.Runs) == 1 && len(base.Runs[0].Trace) > 0 {
+				ev := base.Runs[0].Trace[r.intn(len(base.Runs[0].Trace))]
+				if v, ok := injectAt(sc, ev, "cancel", 0); ok {
+					sc = v
+				}
+			}
+		}
+		emit(sc)
+	}
+}
